@@ -38,6 +38,7 @@ package go_clipper2
 //@   assert after absD [abs] mathInt(absA) == absI(a) && mathInt(absB) == absI(b) && mathInt(absC) == absI(c) && mathInt(absD) == absI(d)
 //@   ensures [exact-except-1] (a != 1 && b != 1 && c != 1 && d != 1) ==> result == (a*b == c*d)
 //@   expect  [exact] result == (a*b == c*d)
+//@   ensures [zero-products-are-equal] ((a == 0 || b == 0) && (c == 0 || d == 0)) ==> result
 
 //@ func isCollinear
 //@   props C14 C15
@@ -45,6 +46,7 @@ package go_clipper2
 //@   requires dom(pt1,29) && dom(sharedPt,29) && dom(pt2,29)
 //@   ensures [exact-except-1] (sharedPt.X-pt1.X != 1 && pt2.Y-sharedPt.Y != 1 && sharedPt.Y-pt1.Y != 1 && pt2.X-sharedPt.X != 1) ==> result == (cross(pt1, sharedPt, pt2) == 0)
 //@   expect  [exact] result == (cross(pt1, sharedPt, pt2) == 0)
+//@   ensures [a-repeated-point-is-collinear] (pt1 == sharedPt || sharedPt == pt2) ==> result
 
 //@ func CrossProduct
 //@   props C14 C13
@@ -828,8 +830,10 @@ package go_clipper2
 //@   requires forall(k, 0, len(paths), domPath(paths[k], 29) && (len(paths[k]) <= 4 || noWrap(paths[k])))
 
 //@ func IsOdd
-//@   props C03
+//@   props C03 C01
 //@   panicfree
+//@   inline
+//@   ensures [parity] result == (val%2 != 0)
 
 //@ func IsPositiveD
 //@   props C03
@@ -868,16 +872,23 @@ package go_clipper2
 //@   panicfree
 
 //@ func NewRect64
-//@   props C03
+//@   props C03 C06 C14
 //@   panicfree
+//@   inline
+//@   ensures [fields] result.left == left && result.top == top && result.right == right && result.bottom == bottom
 
 //@ func NewRect64Invalid
-//@   props C03
+//@   props C03 C14 C06 C04
 //@   panicfree
+//@   inline
+//@   ensures [valid-means-zero-rect] isValid ==> (result.left == 0 && result.top == 0 && result.right == 0 && result.bottom == 0)
+//@   ensures [invalid-rect-is-inverted-at-the-extremes] !isValid ==> (result.left == math.MaxInt64 && result.top == math.MaxInt64 && result.right == math.MinInt64 && result.bottom == math.MinInt64)
 
 //@ func NewRectD
-//@   props C03
+//@   props C03 C07
 //@   panicfree
+//@   inline
+//@   ensures [fields] result.left == left && result.top == top && result.right == right && result.bottom == bottom
 
 //@ func NewRectDInvalid
 //@   props C03
@@ -892,12 +903,16 @@ package go_clipper2
 //@   panicfree
 
 //@ func Point64.Equals
-//@   props C03
+//@   props C03 C02 C14
 //@   panicfree
+//@   inline
+//@   ensures [both-coordinates] result == (p.X == p2.X && p.Y == p2.Y)
 
 //@ func Point64.NEquals
-//@   props C03
+//@   props C03 C02
 //@   panicfree
+//@   inline
+//@   ensures [either-coordinate] result == (p.X != p2.X || p.Y != p2.Y)
 
 //@ func Point64.Sub
 //@   props C03
@@ -908,8 +923,11 @@ package go_clipper2
 //@   panicfree
 
 //@ func Point64.ToPointD
-//@   props C03
+//@   props C03 C07
 //@   panicfree
+//@   inline
+//@   requires absI(p.X) <= pow2(53) && absI(p.Y) <= pow2(53)
+//@   ensures [same-coordinates] result.X == toReal(p.X) && result.Y == toReal(p.Y)
 
 //@ func Point64.ToPointDScale
 //@   props C03
@@ -924,12 +942,16 @@ package go_clipper2
 //@   panicfree
 
 //@ func PointD.Negate
-//@   props C03
+//@   props C03 C05
 //@   panicfree
+//@   inline
+//@   ensures [negated] p.X == -old(p.X) && p.Y == -old(p.Y)
 
 //@ func PointD.Scale
 //@   props C03
 //@   panicfree
+//@   inline
+//@   ensures [scaled] p.X == old(p.X)*scale && p.Y == old(p.Y)*scale
 
 //@ func PointD.ToPoint64
 //@   props C03
@@ -960,44 +982,64 @@ package go_clipper2
 //@   panicfree
 
 //@ func Rect64.AsPath
-//@   props C03
+//@   props C03 C06 C11
 //@   panicfree
+//@   inline
+//@   ensures [corners-clockwise-from-top-left] len(result) == 4 && result[0] == Point64{r.left, r.top} && result[1] == Point64{r.right, r.top} && result[2] == Point64{r.right, r.bottom} && result[3] == Point64{r.left, r.bottom}
 
 //@ func Rect64.Contains
-//@   props C03
+//@   props C03 C06 C11 C04
 //@   panicfree
+//@   inline
+//@   ensures [contains-iff-all-four-sides-inside] result == (r.left <= rec.left && rec.right <= r.right && r.top <= rec.top && rec.bottom <= r.bottom)
 
 //@ func Rect64.Intersects
-//@   props C03
+//@   props C03 C06 C11
 //@   panicfree
+//@   inline
+//@   ensures [share-a-point] result == (r.left <= r.right && rec.left <= rec.right && r.left <= rec.right && rec.left <= r.right && r.top <= r.bottom && rec.top <= rec.bottom && r.top <= rec.bottom && rec.top <= r.bottom)
 
 //@ func Rect64.IsEmpty
-//@   props C03
+//@   props C03 C06 C11 C04
 //@   panicfree
+//@   inline
+//@   ensures [empty-iff-no-interior] result == (r.bottom <= r.top || r.right <= r.left)
 
 //@ func Rect64.IsInvalid
 //@   props C03
 //@   panicfree
 
 //@ func Rect64.MidPoint
-//@   props C03
+//@   props C03 C06 C04
 //@   panicfree
+//@   inline
+//@   requires rectDom(*r)
+//@   ensures [midpoint] result.X == (r.left + r.right) / 2 && result.Y == (r.top + r.bottom) / 2
+//@   ensures [between] min(r.left, r.right) <= result.X && result.X <= max(r.left, r.right) && min(r.top, r.bottom) <= result.Y && result.Y <= max(r.top, r.bottom)
 
 //@ func RectD.AsPath
 //@   props C03
 //@   panicfree
+//@   inline
+//@   ensures [corners-clockwise-from-top-left] len(result) == 4 && result[0] == PointD{r.left, r.top} && result[1] == PointD{r.right, r.top} && result[2] == PointD{r.right, r.bottom} && result[3] == PointD{r.left, r.bottom}
 
 //@ func RectD.Contains
 //@   props C03
 //@   panicfree
+//@   inline
+//@   ensures [contains-iff-all-four-sides-inside] result == (r.left <= rec.left && rec.right <= r.right && r.top <= rec.top && rec.bottom <= r.bottom)
 
 //@ func RectD.Intersects
 //@   props C03
 //@   panicfree
+//@   inline
+//@   ensures [share-a-point] result == (r.left <= r.right && rec.left <= rec.right && r.left <= rec.right && rec.left <= r.right && r.top <= r.bottom && rec.top <= rec.bottom && r.top <= rec.bottom && rec.top <= r.bottom)
 
 //@ func RectD.IsEmpty
-//@   props C03
+//@   props C03 C07
 //@   panicfree
+//@   inline
+//@   ensures [empty-iff-no-interior] result == (r.bottom <= r.top || r.right <= r.left)
 
 //@ func RectD.IsInvalid
 //@   props C03
@@ -1006,6 +1048,8 @@ package go_clipper2
 //@ func RectD.MidPoint
 //@   props C03
 //@   panicfree
+//@   inline
+//@   ensures [midpoint] result.X == (r.left + r.right) / 2 && result.Y == (r.top + r.bottom) / 2
 
 //@ func ScaleRect64
 //@   props C03
@@ -1032,16 +1076,22 @@ package go_clipper2
 //@   panicfree
 
 //@ func absInt
-//@   props C03
+//@   props C03 C14 C01
 //@   panicfree
+//@   inline
+//@   ensures [magnitude] (a >= 0 ==> result == a) && (a < 0 ==> (result + a == 0 || toReal(a) <= -9223372036854775808.0))
 
 //@ func almostZero
-//@   props C03
+//@   props C03 C05
 //@   panicfree
+//@   inline
+//@   ensures [threshold] result == (absI(value) < 0.001)
 
 //@ func areOpposites
-//@   props C03
+//@   props C03 C06
 //@   panicfree
+//@   inline
+//@   ensures [two-apart] validLoc(prev) && validLoc(curr) ==> result == (prev - curr == 2 || curr - prev == 2)
 
 //@ func areaTriangle
 //@   props C03
@@ -1080,32 +1130,38 @@ package go_clipper2
 //@   panicfree
 
 //@ func crossProductD
-//@   props C03
+//@   props C03 C05 C10
 //@   panicfree
+//@   inline
+//@   ensures [cross] result == vec1.Y*vec2.X - vec2.Y*vec1.X
 
 //@ func dotProductD
-//@   props C03
+//@   props C03 C05 C10
 //@   panicfree
+//@   inline
+//@   ensures [dot] result == vec1.X*vec2.X + vec1.Y*vec2.Y
 
 //@ func getAvgUnitVector
 //@   props C03
 //@   panicfree
 
 //@ func getEdgesForPt
-//@   props C03
+//@   props C03 C06
 //@   panicfree
-
-//@ func getRealOutRec
-//@   props C03
-//@   panicfree
+//@   inline
+//@   ensures [bit-per-edge-line] int(result) == ite(pt.X == rec.left, 1, ite(pt.X == rec.right, 4, 0)) + ite(pt.Y == rec.top, 2, ite(pt.Y == rec.bottom, 8, 0))
 
 //@ func hasHorzOverlap
-//@   props C03
+//@   props C03 C06
 //@   panicfree
+//@   inline
+//@   ensures [open-x-intervals-meet] result == (left1.X < right2.X && left2.X < right1.X)
 
 //@ func hasVertOverlap
-//@   props C03
+//@   props C03 C06
 //@   panicfree
+//@   inline
+//@   ensures [open-y-intervals-meet] result == (top1.Y < bottom2.Y && top2.Y < bottom1.Y)
 
 //@ func hypotenuse
 //@   props C03
@@ -1114,18 +1170,20 @@ package go_clipper2
 //@ func isAlmostZero
 //@   props C03
 //@   panicfree
+//@   inline
+//@   ensures [threshold] result == (absI(value) <= floatingPointTolerance)
 
 //@ func isHeadingClockwise
-//@   props C03
+//@   props C03 C06
 //@   panicfree
+//@   inline
+//@   ensures [left-edge-up-top-edge-right-right-edge-down-bottom-edge-left] result == ite(edgeIdx == 0, pt2.Y < pt1.Y, ite(edgeIdx == 1, pt2.X > pt1.X, ite(edgeIdx == 2, pt2.Y > pt1.Y, pt2.X < pt1.X)))
 
 //@ func isHorizontalPoint
-//@   props C03
+//@   props C03 C06
 //@   panicfree
-
-//@ func isValidOwner
-//@   props C03
-//@   panicfree
+//@   inline
+//@   ensures [same-y] result == (pt1.Y == pt2.Y)
 
 //@ func newReuseableDataContainer64
 //@   props C03
@@ -1148,12 +1206,16 @@ package go_clipper2
 //@   panicfree
 
 //@ func swapActives
-//@   props C03
+//@   props C03 C01
 //@   panicfree
+//@   inline
+//@   ensures [swapped] *ae1 == old(*ae2) && *ae2 == old(*ae1)
 
 //@ func translatePoint
-//@   props C03
+//@   props C03 C05 C10
 //@   panicfree
+//@   inline
+//@   ensures [translated] result.X == pt.X + dx && result.Y == pt.Y + dy
 
 
 // ---------------------------------------------------------------------------------
@@ -1562,6 +1624,7 @@ package go_clipper2
 //@   requires op != nil && op.next != nil && op.prev != nil
 //@   ensures [unlinked] linked(old(op.prev), old(op.next))
 //@   ensures [successor] result == ite(old(op.next) == op, nil, old(op.next))
+//@   ensures [other-nodes-untouched] forallp(q, OutPt, (q != old(op.prev) ==> q.next == old(q.next)) && (q != old(op.next) ==> q.prev == old(q.prev)))
 
 //@ func duplicateOp
 //@   props C02 C03
@@ -2058,3 +2121,278 @@ package go_clipper2
 //@   props C01
 //@   trusted
 //@   assumes ae != nil && ae.vertexTop != nil
+
+// ---------------------------------------------------------------------------------
+// Exact specifications of the sweep's small helpers (C01, C02, C09, C03).  `inline`: callers still
+// expand the bodies in place, so these contracts add obligations on the helpers themselves and change
+// nothing in the callers' proofs.
+// ---------------------------------------------------------------------------------
+
+//@ func isHotEdge
+//@   props C01 C02 C09 C03
+//@   inline
+//@   requires ae != nil
+//@   ensures [has-an-output-record] result == (ae.outrec != nil)
+
+//@ func isOpen
+//@   props C09 C01 C03
+//@   inline
+//@   requires ae != nil && ae.localMin != nil
+//@   ensures [open-flag-of-the-local-minimum] result == ae.localMin.IsOpen
+
+//@ func isVertexOpenEnd
+//@   props C09 C03
+//@   inline
+//@   requires v != nil
+//@   ensures [start-or-end-flag] result == ((v.flags & OpenStart) != None || (v.flags & OpenEnd) != None)
+
+//@ func isOpenEnd
+//@   props C09 C03
+//@   inline
+//@   requires ae != nil && ae.localMin != nil && ae.vertexTop != nil
+//@   ensures [open-edge-at-an-end-vertex] result == (ae.localMin.IsOpen && ((ae.vertexTop.flags & OpenStart) != None || (ae.vertexTop.flags & OpenEnd) != None))
+
+//@ func isFront
+//@   props C02 C01 C03
+//@   inline
+//@   requires ae != nil && ae.outrec != nil
+//@   ensures [front-edge-of-its-record] result == (ae.outrec.frontEdge == ae)
+
+//@ func outrecIsAscending
+//@   props C02 C03
+//@   inline
+//@   requires hotEdge != nil && hotEdge.outrec != nil
+//@   ensures [front-edge-of-its-record] result == (hotEdge.outrec.frontEdge == hotEdge)
+
+//@ func isHorizontal
+//@   props C01 C09 C03
+//@   inline
+//@   requires ae != nil
+//@   ensures [top-and-bottom-level] result == (ae.top.Y == ae.bot.Y)
+
+//@ func isHeadingRightHorz
+//@   props C01 C03
+//@   inline
+//@   requires ae != nil
+//@   ensures [slope-is-minus-infinity] result == (ae.dx == negInf)
+
+//@ func isHeadingLeftHorz
+//@   props C01 C03
+//@   inline
+//@   requires ae != nil
+//@   ensures [slope-is-plus-infinity] result == (ae.dx == posInf)
+
+//@ func getPolyType
+//@   props C01 C19 C03
+//@   inline
+//@   requires ae != nil && ae.localMin != nil
+//@   ensures [path-type-of-the-local-minimum] result == ae.localMin.PolyType
+
+//@ func isSamePolyType
+//@   props C01 C19 C03
+//@   inline
+//@   requires ae1 != nil && ae2 != nil && ae1.localMin != nil && ae2.localMin != nil
+//@   ensures [same-path-type] result == (ae1.localMin.PolyType == ae2.localMin.PolyType)
+
+//@ func nextVertex
+//@   props C01 C03
+//@   inline
+//@   requires ae != nil && ae.vertexTop != nil
+//@   ensures [along-the-winding-direction] result == ite(ae.windDx > 0, ae.vertexTop.next, ae.vertexTop.prev)
+
+//@ func prevPrevVertex
+//@   props C01 C03
+//@   inline
+//@   requires ae != nil && ae.vertexTop != nil && ae.vertexTop.prev != nil && ae.vertexTop.next != nil
+//@   ensures [two-back-against-the-winding-direction] result == ite(ae.windDx > 0, ae.vertexTop.prev.prev, ae.vertexTop.next.next)
+
+//@ func isMaxima
+//@   props C01 C03
+//@   inline
+//@   requires vertex != nil
+//@   ensures [local-max-flag] result == ((vertex.flags & LocalMax) != None)
+
+//@ func isMaximaActive
+//@   props C01 C03
+//@   inline
+//@   requires ae != nil && ae.vertexTop != nil
+//@   ensures [top-vertex-is-a-local-max] result == ((ae.vertexTop.flags & LocalMax) != None)
+
+//@ func isJoined
+//@   props C02 C03
+//@   inline
+//@   requires e != nil
+//@   ensures [joined-to-a-neighbour] result == (e.joinWith != JoinNone)
+
+//@ func setSides
+//@   props C02 C03
+//@   inline
+//@   requires outrec != nil
+//@   ensures [front-then-back] outrec.frontEdge == startEdge && outrec.backEdge == endEdge
+//@   ensures [nothing-else] outrec.pts == old(outrec.pts) && outrec.owner == old(outrec.owner) && forallp(r, OutRec, r != outrec ==> (r.frontEdge == old(r.frontEdge) && r.backEdge == old(r.backEdge)))
+
+//@ func edgesAdjacentInAEL
+//@   props C01 C03
+//@   inline
+//@   requires inode != nil && inode.edge1 != nil
+//@   ensures [neighbours-either-way] result == (inode.edge1.nextInAEL == inode.edge2 || inode.edge1.prevInAEL == inode.edge2)
+
+//@ func getLastOp
+//@   props C02 C03
+//@   inline
+//@   requires hotEdge != nil && (hotEdge.outrec != nil ==> hotEdge.outrec.pts != nil)
+//@   ensures [cold-edge-has-none] hotEdge.outrec == nil ==> result == nil
+//@   ensures [front-edge-ends-at-the-entry-point-back-edge-at-its-successor] hotEdge.outrec != nil ==> result == ite(hotEdge.outrec.frontEdge == hotEdge, hotEdge.outrec.pts, hotEdge.outrec.pts.next)
+
+//@ func LocalMinima.Equals
+//@   props C03 C17
+//@   inline
+//@   requires l != nil && r != nil
+//@   ensures [same-vertex] result == (l.Vertex == r.Vertex)
+
+//@ func pointsEqual
+//@   props C02 C03
+//@   inline
+//@   ensures [both-coordinates] result == (p1.X == p2.X && p1.Y == p2.Y)
+
+//@ func SwapFrontBackSides
+//@   props C02 C03 C09
+//@   inline
+//@   requires outrec != nil
+//@   ensures [sides-swapped] outrec.frontEdge == old(outrec.backEdge) && outrec.backEdge == old(outrec.frontEdge)
+//@   ensures [entry-advanced] (old(outrec.pts) != nil ==> outrec.pts == old(outrec.pts.next)) && (old(outrec.pts) == nil ==> outrec.pts == nil)
+
+//@ func swapOutRecs
+//@   props C02 C03
+//@   inline
+//@   requires ae1 != nil && ae2 != nil && ae1 != ae2
+//@   ensures [same-record-flips-sides] (old(ae1.outrec) != nil && old(ae1.outrec) == old(ae2.outrec)) ==> (ae1.outrec == old(ae1.outrec) && ae2.outrec == old(ae2.outrec) && ae1.outrec.frontEdge == old(ae1.outrec.backEdge) && ae1.outrec.backEdge == old(ae1.outrec.frontEdge))
+//@   ensures [records-exchanged] !(old(ae1.outrec) != nil && old(ae1.outrec) == old(ae2.outrec)) ==> (ae1.outrec == old(ae2.outrec) && ae2.outrec == old(ae1.outrec))
+//@   ensures [sides-follow-1] (old(ae1.outrec) != nil && old(ae1.outrec) != old(ae2.outrec)) ==> ((old(ae1.outrec.frontEdge) == ae1 ==> old(ae1.outrec).frontEdge == ae2) && (old(ae1.outrec.frontEdge) != ae1 ==> old(ae1.outrec).backEdge == ae2))
+
+//@ func addLocMin
+//@   props C01 C09 C12 C03
+//@   inline
+//@   requires v != nil
+//@   ensures [already-a-minimum-noop] (old(v.flags) & LocalMin) != None ==> (len(*minimaList) == old(len(*minimaList)) && v.flags == old(v.flags))
+//@   ensures [registered-once] (old(v.flags) & LocalMin) == None ==> (len(*minimaList) == old(len(*minimaList)) + 1 && (*minimaList)[len(*minimaList)-1] != nil && (*minimaList)[len(*minimaList)-1].Vertex == v && (*minimaList)[len(*minimaList)-1].PolyType == polytype && (*minimaList)[len(*minimaList)-1].IsOpen == isOpen && (v.flags & LocalMin) != None)
+//@   ensures [earlier-entries-kept] forall(k, 0, old(len(*minimaList)), (*minimaList)[k] == old((*minimaList)[k]))
+
+//@ func unlinkOp
+//@   props C06 C03
+//@   inline
+//@   requires op != nil && op.next != nil && op.prev != nil
+//@   ensures [single-node-ring-vanishes] old(op.next) == op ==> result == nil
+//@   ensures [bypassed-returns-successor] old(op.next) != op ==> (result == old(op.next) && old(op.prev).next == old(op.next) && old(op.next).prev == old(op.prev))
+
+//@ func unlinkOpBack
+//@   props C06 C03
+//@   inline
+//@   requires op != nil && op.next != nil && op.prev != nil
+//@   ensures [single-node-ring-vanishes] old(op.next) == op ==> result == nil
+//@   ensures [bypassed-returns-predecessor] old(op.next) != op ==> (result == old(op.prev) && old(op.prev).next == old(op.next) && old(op.next).prev == old(op.prev))
+
+//@ func addToEdge
+//@   props C06 C03
+//@   inline
+//@   requires op != nil
+//@   ensures [already-on-an-edge-noop] old(op.edge) != nil ==> len(*edge) == old(len(*edge))
+//@   ensures [appended] old(op.edge) == nil ==> (len(*edge) == old(len(*edge)) + 1 && (*edge)[len(*edge)-1] == op)
+
+//@ func setNewOwner
+//@   props C06 C03
+//@   nosafety
+//@   assumes op != nil && forallp(q, OutPt2, q.next != nil)
+//@   loop 0 invariant [walked-nodes-owned] op.ownerIdx == newIdx && op2 != nil
+//@   loop 0 step [each-node-visited-gets-the-owner] old(op2).ownerIdx == newIdx && op2 == old(op2).next
+//@   ensures [head-owned] op.ownerIdx == newIdx
+
+//@ func getRealOutRec
+//@   props C04 C02 C03
+//@   panicfree
+//@   loop 0 invariant [walk] (old(outRec) != nil && old(outRec).pts != nil) ==> outRec == old(outRec)
+//@   ensures [has-points-or-none] result == nil || result.pts != nil
+//@   ensures [identity-on-live-records] (old(outRec) != nil && old(outRec).pts != nil) ==> result == old(outRec)
+
+//@ func isValidOwner
+//@   props C04 C03
+//@   panicfree
+//@   loop 0 invariant [walk] (old(testOwner) == nil ==> testOwner == nil) && ((old(testOwner) != nil && outRec != nil && (old(testOwner) == outRec || old(testOwner).owner == outRec)) ==> (testOwner == old(testOwner) || testOwner == outRec))
+//@   ensures [no-owner-is-valid] old(testOwner) == nil ==> result
+//@   ensures [self-is-not] (old(testOwner) != nil && old(testOwner) == outRec) ==> !result
+//@   ensures [direct-child-is-not] (old(testOwner) != nil && old(testOwner) != outRec && old(testOwner).owner == outRec && outRec != nil) ==> !result
+
+//@ func getPrevHotEdge
+//@   props C04 C02 C03
+//@   nosafety
+//@   assumes ae != nil && forallp(e, Active, e.localMin != nil)
+//@   loop 0 invariant [walk] (ae.prevInAEL != nil && ae.prevInAEL.outrec != nil && !ae.prevInAEL.localMin.IsOpen) ==> prev == ae.prevInAEL
+//@   ensures [hot-closed-edge-or-none] result == nil || (result.outrec != nil && !result.localMin.IsOpen)
+//@   ensures [immediate-neighbour-wins] (ae.prevInAEL != nil && ae.prevInAEL.outrec != nil && !ae.prevInAEL.localMin.IsOpen) ==> result == ae.prevInAEL
+
+//@ func getMaximaPair
+//@   props C01 C03
+//@   nosafety
+//@   assumes ae != nil
+//@   loop 0 invariant [walk] (ae.nextInAEL != nil && ae.nextInAEL.vertexTop == ae.vertexTop) ==> ae2 == ae.nextInAEL
+//@   ensures [shares-the-top-vertex] result == nil || result.vertexTop == ae.vertexTop
+//@   ensures [immediate-neighbour-wins] (ae.nextInAEL != nil && ae.nextInAEL.vertexTop == ae.vertexTop) ==> result == ae.nextInAEL
+
+//@ func getCurrYMaximaVertex
+//@   props C01 C03
+//@   nosafety
+//@   assumes ae != nil && ae.vertexTop != nil && forallp(v, Vertex, v.next != nil && v.prev != nil)
+//@   loop 0 invariant [level] result != nil && result.pt.Y == ae.vertexTop.pt.Y
+//@   loop 1 invariant [level] result != nil && result.pt.Y == ae.vertexTop.pt.Y
+//@   ensures [a-local-max-on-the-top-level-of-the-edge-or-none] result == nil || ((result.flags & LocalMax) != None && result.pt.Y == ae.vertexTop.pt.Y)
+
+//@ func getCurrYMaximaVertexOpen
+//@   props C09 C03
+//@   nosafety
+//@   assumes ae != nil && ae.vertexTop != nil && forallp(v, Vertex, v.next != nil && v.prev != nil)
+//@   loop 0 invariant [level] result != nil && result.pt.Y == ae.vertexTop.pt.Y
+//@   loop 1 invariant [level] result != nil && result.pt.Y == ae.vertexTop.pt.Y
+//@   ensures [a-local-max-on-the-top-level-of-the-edge-or-none] result == nil || ((result.flags & LocalMax) != None && result.pt.Y == ae.vertexTop.pt.Y)
+
+//@ func resetHorzDirection
+//@   props C01 C09 C03
+//@   nosafety
+//@   assumes horz != nil
+//@   loop 0 invariant [walk] true
+//@   ensures [left-not-right-of-right] result0 <= result1
+//@   ensures [span-is-current-x-to-top-x] horz.bot.X != horz.top.X ==> (result0 == min(horz.curX, horz.top.X) && result1 == max(horz.curX, horz.top.X))
+//@   ensures [zero-length-horizontal-stays-put] horz.bot.X == horz.top.X ==> (result0 == horz.curX && result1 == horz.curX)
+//@   ensures [heading] horz.bot.X != horz.top.X ==> result2 == (horz.curX < horz.top.X)
+
+//@ func setOwner
+//@   props C04 C03
+//@   nosafety
+//@   assumes outrec != nil && newOwner != nil && outrec != newOwner
+//@   loop 0 invariant [walk] true
+//@   loop 1 invariant [walk] true
+//@   ensures [owner-set] outrec.owner == newOwner
+
+// cleanCollinear (C02): a vertex leaves an output ring only if it repeats a neighbour or is collinear with
+// its neighbours, and a vertex the scan passes over differs from both neighbours - so when the scan completes a
+// round without removing anything, no two consecutive vertices of the ring are equal
+//@ func clipperBase.cleanCollinear
+//@   props C02 C03
+//@   nosafety
+//@   assumes forallp(q, OutPt, q.next != nil && q.prev != nil && dom(q.pt, 29))
+//@   assumes forallp(q, OutRec, q.pts == nil || q.pts.next != nil)
+//@   loop 0 invariant [ring] op2 != nil && startOp != nil && outrec != nil && forallp(q, OutPt, q.next != nil && q.prev != nil && dom(q.pt, 29))
+//@   loop 0 step [only-redundant-vertices-are-unlinked] (old(op2.prev.next) == old(op2) && old(op2.prev).next != old(op2)) ==> (isCollinear(old(op2.prev.pt), old(op2.pt), old(op2.next.pt)) && (old(op2.pt) == old(op2.prev.pt) || old(op2.pt) == old(op2.next.pt) || !c.preserveCollinear || dotP(old(op2.prev.pt), old(op2.pt), old(op2.next.pt)) < 0))
+//@   loop 0 step [a-vertex-that-is-passed-differs-from-both-neighbours] old(op2.prev).next == old(op2) ==> (old(op2.pt) != old(op2.prev.pt) && old(op2.pt) != old(op2.next.pt))
+//@   loop 0 step [points-are-never-moved] forallp(q, OutPt, q.pt == old(q.pt))
+
+// processIntersectList (C01, C17): the crossings of one scanbeam are processed from the bottom of the beam
+// upwards (larger Y first), ties from left to right, and a crossing is only processed while its two edges are
+// neighbours in the active edge list
+//@ func clipperBase.processIntersectList
+//@   props C01 C17 C03
+//@   nosafety
+//@   opaque clipperBase.intersectEdges clipperBase.swapPositionsInAEL clipperBase.checkJoinLeft clipperBase.checkJoinRight
+//@   assumes forall(k, 0, len(c.intersectList), c.intersectList[k] != nil && c.intersectList[k].edge1 != nil && c.intersectList[k].edge2 != nil)
+//@   loop 0 entry [crossings-are-taken-bottom-up-then-left-to-right] forall(k, 1, len(c.intersectList), c.intersectList[k-1].pt.Y > c.intersectList[k].pt.Y || (c.intersectList[k-1].pt.Y == c.intersectList[k].pt.Y && c.intersectList[k-1].pt.X <= c.intersectList[k].pt.X))
+//@   loop 0 step [both-edges-move-to-the-crossing] i == old(i) + 1 && c.intersectList[old(i)].edge1.curX == c.intersectList[old(i)].pt.X && c.intersectList[old(i)].edge2.curX == c.intersectList[old(i)].pt.X
+//@   assert after node [only-neighbouring-edges-are-crossed] node != nil ==> (node.edge1.nextInAEL == node.edge2 || node.edge1.prevInAEL == node.edge2)
